@@ -276,4 +276,86 @@ theorem Ip6.toBytes_arith (h : Ip6) (wf : h.WF) :
     rw [lor_eq_add 4 _ _ (by omega) (by omega)]; omega
   simp only [e0, e1]
 
+/-! ### Ipv4Header -/
+
+def Ip4.get (h : Ip4) (name : String) : Nat :=
+  if name = "version" then 4 else if name = "ihl" then 5 + h.options.length / 4
+  else if name = "dscp" then h.dscp else if name = "ecn" then h.ecn
+  else if name = "total_len" then h.totalLen else if name = "identification" then h.ident
+  else if name = "df" then b2n h.df else if name = "mf" then b2n h.mf
+  else if name = "frag_off" then h.fragOff else if name = "ttl" then h.ttl
+  else if name = "protocol" then h.proto else if name = "checksum" then h.checksum
+  else if name = "src" then spanVal h.src 0 4 else if name = "dst" then spanVal h.dst 0 4 else 0
+
+def Ip4.set (h : Ip4) (name : String) (v : Nat) : Ip4 :=
+  if name = "dscp" then { h with dscp := v } else if name = "ecn" then { h with ecn := v }
+  else if name = "total_len" then { h with totalLen := v }
+  else if name = "identification" then { h with ident := v }
+  else if name = "df" then { h with df := decide (v ≠ 0) }
+  else if name = "mf" then { h with mf := decide (v ≠ 0) }
+  else if name = "frag_off" then { h with fragOff := v } else if name = "ttl" then { h with ttl := v }
+  else if name = "protocol" then { h with proto := v }
+  else if name = "checksum" then { h with checksum := v } else h
+
+def Ip4.settable : List String :=
+  ["dscp", "ecn", "total_len", "identification", "df", "mf", "frag_off", "ttl", "protocol", "checksum"]
+
+theorem Ip4.first20_arith (h : Ip4) (wf : h.WF) (c : Nat) :
+    h.first20 c =
+  [ u8 (64 + (5 + h.options.length / 4)),
+    u8 (h.dscp * 4 + h.ecn),
+    u8 (h.totalLen / 256 % 256), u8 (h.totalLen % 256),
+    u8 (h.ident / 256 % 256), u8 (h.ident % 256),
+    u8 (b2n h.df * 64 + b2n h.mf * 32 + h.fragOff / 256), u8 (h.fragOff % 256),
+    u8 h.ttl, u8 h.proto,
+    u8 (c / 256 % 256), u8 (c % 256),
+    arr h.src 0, arr h.src 1, arr h.src 2, arr h.src 3,
+    arr h.dst 0, arr h.dst 1, arr h.dst 2, arr h.dst 3 ] := by
+  obtain ⟨h1, h2, h3, h4, h5, h6, h7, h8, h9, h10, h11, h12⟩ := wf
+  unfold Ip4.first20 Ip4.fragAndFlags Ip4.ihl
+  have e0 : (4 * 16) ||| ((h.options.length % 256 / 4 + 5) % 256) = 64 + (5 + h.options.length / 4) := by
+    rw [lor_eq_add 6 _ _ (by omega) (by omega)]; omega
+  have e1 : (h.dscp * 4 % 256) ||| h.ecn = h.dscp * 4 + h.ecn := by
+    rw [lor_eq_add 2 _ _ (by omega) (by omega)]; omega
+  have e2 : ((if h.mf then (if h.df then 0 ||| 64 else 0) ||| 32 else (if h.df then 0 ||| 64 else 0))
+      ||| (h.fragOff / 256 % 256 % 32)) = b2n h.df * 64 + b2n h.mf * 32 + h.fragOff / 256 := by
+    have z : (0 : Nat) ||| 64 = 64 := by decide
+    have a : (64 : Nat) ||| 32 = 96 := by decide
+    have b : (0 : Nat) ||| 32 = 32 := by decide
+    cases h.df <;> cases h.mf <;> simp only [z, a, b, b2n, if_true, if_false, Bool.false_eq_true] <;>
+      rw [lor_eq_add 5 _ _ (by omega) (by omega)] <;> omega
+  simp only [e0, e1, e2]
+
+/-! ### Ipv4Header, decoding (and the reader copies) -/
+
+/-- what `Ipv4HeaderSlice::from_slice` + `to_header` return when the four checks pass. -/
+theorem Ip4.fromSlice_ok_aux (b : Bytes) (h20 : 20 ≤ b.length) (hv : bAt b 0 / 16 = 4)
+    (hi : 5 ≤ bAt b 0 % 16) (hl : bAt b 0 % 16 * 4 ≤ b.length) :
+    Ip4.fromSlice b = .ok (
+      { dscp := bAt b 1 / 4, ecn := bAt b 1 % 4, totalLen := be16 b 2,
+        ident := be16 b 4, df := decide (bAt b 6 / 64 % 2 * 64 ≠ 0),
+        mf := decide (bAt b 6 / 32 % 2 * 32 ≠ 0), fragOff := (bAt b 6 % 32) * 256 + bAt b 7,
+        ttl := bAt b 8, proto := bAt b 9, checksum := be16 b 10, src := sub b 12 4,
+        dst := sub b 16 4, options := sub b 20 (bAt b 0 % 16 * 4 - 20) },
+      b.drop (bAt b 0 % 16 * 4)) := by
+  unfold Ip4.fromSlice
+  rw [if_neg (by omega)]
+  simp only
+  rw [if_neg (by omega), if_neg (by omega), if_neg (by omega)]
+
+/-- the converse: success means the four checks passed. -/
+theorem Ip4.fromSlice_inv_aux (b : Bytes) (h : Ip4) (r : Bytes) (hd : Ip4.fromSlice b = .ok (h, r)) :
+    20 ≤ b.length ∧ bAt b 0 / 16 = 4 ∧ 5 ≤ bAt b 0 % 16 ∧ bAt b 0 % 16 * 4 ≤ b.length := by
+  unfold Ip4.fromSlice at hd
+  split at hd
+  · cases hd
+  · simp only at hd
+    split at hd
+    · cases hd
+    · split at hd
+      · cases hd
+      · split at hd
+        · cases hd
+        · omega
+
 end EpModel.BitFields
